@@ -265,3 +265,63 @@ func polyOfVal(v absint.Val) *absint.Poly {
 	}
 	return nil
 }
+
+// ruleExactWindow4 (X): the signed radix-16 recoding preserves the value: Σ r_i·16^i = s as integers, for every
+// s < 2^256 (the bit-origin rule decides the unsigned digit extraction; this decides the pass that makes digits signed).
+func ruleExactWindow4(r *rep.Report, p *load.Program) {
+	cfg := p.Cfg.Name
+	bpl, n, w := modmLayout(p)
+	fn := ssau.Func(p, "internal/modm", "ContractWindow4")
+	if n == 0 || fn == nil {
+		return
+	}
+	it := absint.NewInterp(absint.Hooks{Modular: func(*ssa.Function) bool { return true }, Polys: true})
+	in := &absint.Object{Name: "s", Kind: "arr", W: w}
+	var sp []*absint.Poly
+	for i := 0; i < n; i++ {
+		bits := 256 - i*bpl
+		if bits > bpl {
+			bits = bpl
+		}
+		v := absint.Range(new(big.Int), new(big.Int).Sub(new(big.Int).Lsh(big.NewInt(1), uint(bits)), big.NewInt(1)), w, false)
+		v.Sym = absint.FreshSym(fmt.Sprintf("s[%d]", i), w)
+		v.Poly = absint.PolyVar(fmt.Sprintf("s%d", i))
+		sp = append(sp, v.Poly)
+		in.Vals = append(in.Vals, v)
+	}
+	it.St.Objs = append(it.St.Objs, in)
+	sid := len(it.St.Objs) - 1
+	out := &absint.Object{Name: "r", Kind: "arr", W: 8, Sg: true}
+	for i := 0; i < 64; i++ {
+		out.Vals = append(out.Vals, absint.ConstInt(0, 8, true))
+	}
+	it.St.Objs = append(it.St.Objs, out)
+	oid := len(it.St.Objs) - 1
+	it.Call(fn, []absint.AnyVal{absint.PtrV{Obj: oid, Idx: -1}, absint.PtrV{Obj: sid, Idx: -1}}, nil)
+	msg := ""
+	if it.Err != nil {
+		msg = it.Err.Error()
+	} else {
+		sum := absint.PolyConst(new(big.Int))
+		for i, v := range it.St.Objs[oid].Vals {
+			pv := polyOfVal(v)
+			if pv == nil || v.PolyMod {
+				msg = fmt.Sprintf("digit %d has no exact value", i)
+				break
+			}
+			sum = absint.PolyAdd(sum, absint.PolyScale(pv, new(big.Int).Lsh(big.NewInt(1), uint(4*i))), 1)
+		}
+		if msg == "" {
+			weights := make([]int, n)
+			for i := range weights {
+				weights[i] = i * bpl
+			}
+			d := absint.PolyAdd(sum, weighted(sp, weights), -1)
+			if !d.IsZero() {
+				msg = "Σ r_i·16^i − s = " + d.String() + " where " + it.Describe(d)
+			}
+		}
+	}
+	r.Check(msg == "", "X-exact-algebra", cfg, "modm.ContractWindow4: the signed radix-16 digits represent the scalar, Σ r_i·16^i = s", ssau.Pos(p, fn.Pos()),
+		"64 signed digits as polynomials over the limbs; carries between digits cancel", msg)
+}
